@@ -106,6 +106,7 @@ def run(ctx):
     # ---------------- ANN-2
     sites = {"S1": [], "M1M2": []}
     other_writers = []
+    inlined_helpers = set()       # helpers whose stores were attributed to (and are judged at) each of their call sites
     for b in prog.bodies.values():
         if b.unit.name != "statime-lib" or b.is_test():
             continue
@@ -113,6 +114,7 @@ def run(ctx):
                 "core::clone::Clone", "core::default::Default"):
             continue
         sts, pv = stores(b, include_locals=False)
+        inlined_helpers.update(s["inlined_from"] for s in sts if s.get("inlined_from"))
         rel0 = [s for s in sts if not s["macro"] and any(("%s." % n) in (s["lhs"] + ".") for n in DS_NAMES)]
         rel = []
         for s in rel0:
@@ -196,6 +198,8 @@ def run(ctx):
                     rep.ok("ANN-2", b.key, "M1M2:time_properties_ds", detail=tp_const, where=b.loc())
     for (b, lst) in other_writers:
         if b.name in ("new",) or b.self_name in ("InternalParentDS", "InternalCurrentDS", "TimePropertiesDS"):
+            continue
+        if b.key in inlined_helpers:
             continue
         for (s, lits) in lst:
             rep.violation("ANN-2", b.key, "writer:%s" % norm_lhs(s["lhs"]),
